@@ -222,6 +222,81 @@ def sicdScan (des : List DesKind) : Option Nat :=
 /-- `find_des` (sidd_consistency.py): a file is examined as a SIDD when at least one DES has a SIDD root -/
 def siddFound (des : List DesKind) : Bool := des.any (fun k => k == .siddXml || k == .oldSidd)
 
+/-! ### histories of `check()` calls on one checker object (consistency.py `ConsistencyChecker.check`, :70-115)
+
+  `_all_check_results` is an OrderedDict that lives as long as the object.  `check()` resolves the selection to a list of
+  methods and calls `_run_check` for each; `_run_check` runs the method against the CURRENT state of the checked object and
+  stores the result under the method's name (`self._all_check_results[func.__name__] = …`: an existing key keeps its
+  position, a new key is appended).  Nothing is cleared between calls: the entry of a check that a later call does not select
+  is the one an earlier call left.  What a method does depends on the state `σ` of the checked object (file on disk, `xml`,
+  `pvps`, `header`). -/
+
+/-- OrderedDict assignment `d[k] = v` -/
+def storeSet {α ρ : Type} [DecidableEq α] : List (α × ρ) → α → ρ → List (α × ρ)
+  | [], k, v => [(k, v)]
+  | (k', v') :: r, k, v => if k' = k then (k', v) :: r else (k', v') :: storeSet r k v
+
+/-- `_run_check(func)` for the method called `name` of the class `t` on the object state `s` -/
+def runNamed {α σ : Type} [DecidableEq α] (t : List (α × (σ → List Checker.Op))) (s : σ)
+    (store : List (α × Checker.Result)) (name : α) : List (α × Checker.Result) :=
+  match t.lookup name with
+  | some ops => storeSet store name (Checker.runCheck (ops s))
+  | none => store
+
+/-- one `check()` call: the resolved methods, in order (a method selected twice runs twice) -/
+def checkCall {α σ : Type} [DecidableEq α] (t : List (α × (σ → List Checker.Op))) (s : σ)
+    (store : List (α × Checker.Result)) (torun : List α) : List (α × Checker.Result) :=
+  torun.foldl (runNamed t s) store
+
+/-- what can happen to a checker object: the checked object changes, or `check()` is called with some selection -/
+inductive Event (α σ : Type)
+  | change (f : σ → σ)
+  | check (torun : List α)
+
+def runEvent {α σ : Type} [DecidableEq α] (t : List (α × (σ → List Checker.Op)))
+    (st : σ × List (α × Checker.Result)) : Event α σ → σ × List (α × Checker.Result)
+  | .change f => (f st.1, st.2)
+  | .check torun => (st.1, checkCall t st.1 st.2 torun)
+
+def runHistory {α σ : Type} [DecidableEq α] (t : List (α × (σ → List Checker.Op)))
+    (st : σ × List (α × Checker.Result)) (h : List (Event α σ)) : σ × List (α × Checker.Result) :=
+  h.foldl (runEvent t) st
+
+/-- the seeded variant "only run it once": a method whose name already has a stored result is skipped -/
+def checkCallSkipStored {α σ : Type} [DecidableEq α] (t : List (α × (σ → List Checker.Op))) (s : σ)
+    (store : List (α × Checker.Result)) (torun : List α) : List (α × Checker.Result) :=
+  torun.foldl (fun st n => if (st.lookup n).isSome then st else runNamed t s st n) store
+
+/-- the selection of `check(func_name, allow_prefix, ignore_patterns)`: every requested name must match at least one method
+    (`none` = `ValueError("Functions not found")`), matches are collected per request, ignored names are dropped.
+    `m req name` = exact / prefix match, `ign name` = some ignore pattern matches at the start of the name -/
+def resolve {α β : Type} (names : List α) (req : Option (List β)) (m : β → α → Bool) (ign : α → Bool) : Option (List α) :=
+  let sel : Option (List α) := match req with
+    | none => some names
+    | some rs =>
+      let found := rs.map (fun r => names.filter (m r))
+      if found.any List.isEmpty then none else some found.flatten
+  sel.map (fun l => l.filter (fun n => !ign n))
+
+/-! ### per-channel checks: a channel of /Data is judged against the /Channel/Parameters node with the SAME Identifier
+  (cphd_consistency.py `CphdConsistency.__init__`, :234-252: `xpath('./Channel/Parameters/Identifier[text()="{id}"]/..')[0]`) -/
+
+/-- the first Parameters node whose Identifier is `id` -/
+def lookupParam {α β : Type} [DecidableEq α] (params : List (α × β)) (id : α) : Option β :=
+  (params.find? (fun p => p.1 == id)).map (·.2)
+
+/-- one verdict per /Data/Channel entry, in that order; `none` = no Parameters node with that Identifier (the constructor raises) -/
+def perChannel {α β : Type} [DecidableEq α] (verdict : α → β → Bool) (dataIds : List α) (params : List (α × β)) : List (α × Option Bool) :=
+  dataIds.map (fun id => (id, (lookupParam params id).map (verdict id)))
+
+/-- every channel passes -/
+def allChannelsPass {α β : Type} [DecidableEq α] (verdict : α → β → Bool) (dataIds : List α) (params : List (α × β)) : Bool :=
+  (perChannel verdict dataIds params).all (fun r => r.2 == some true)
+
+/-- the seeded variant: the n-th /Data/Channel entry paired with the n-th Parameters node (`zip`) -/
+def perChannelByPosition {α β : Type} (verdict : α → β → Bool) (dataIds : List α) (params : List (α × β)) : List (α × Option Bool) :=
+  (dataIds.zip params).map (fun p => (p.1, some (verdict p.1 p.2.2)))
+
 /-! ### the documented shape of the translated rules (message kind, guards), transcribed at the pinned commit -/
 
 def severities : List (String × String) :=
